@@ -55,7 +55,8 @@ def sym_atom(V, cls, name, intf=None, h_max=4, ring_choices=(3, 5, 6), with_none
     return a, attrs
 
 
-def sym_query_attrs(V, q, name, intf=None, lens=(0, 1, 2), ring_mode=None, extended=True, h_max=4, nb_max=14):
+def sym_query_attrs(V, q, name, intf=None, lens=(0, 1, 2), ring_mode=None, extended=True, h_max=4, nb_max=14,
+                    ring_sel=((3,), (5,), (6,), (3, 5), (5, 6), (3, 6), (4,), (3, 5, 6))):
     """fill the slots of a query atom object with symbolic constraints; returns attrs dict"""
     intf = intf or V.int
     attrs = {}
@@ -73,7 +74,7 @@ def sym_query_attrs(V, q, name, intf=None, lens=(0, 1, 2), ring_mode=None, exten
         elif mode == 'none':
             q._ring_sizes = (0,)
         else:
-            k = V.choice(name + '_ringsel', [(3,), (5,), (6,), (3, 5), (5, 6), (3, 6), (4,), (3, 5, 6)])
+            k = V.choice(name + '_ringsel', ring_sel)
             q._ring_sizes = k
         attrs['rings'] = q._ring_sizes
         q._stereo = None
